@@ -1,5 +1,5 @@
 ------------------------------- MODULE MC_C10 -------------------------------
-EXTENDS OpUnary, OpElementwise, Json, TLC
+EXTENDS OpUnary, OpElementwise, RefTables64, Json, TLC
 CONSTANTS Fams, MaxRank, MaxExt, LongSizes
 VARIABLES st
 P(c) == PrintT(<<"CASE", ToJson(c)>>)
@@ -97,6 +97,19 @@ TileCases ==
          TileLaw(LAMBDA ins : MustValue(<<LookupT(fn, ins[1])>>), <<X>>, {1}) =>
             P(CaseRec("tile", fn, <<X>>, MustValue(<<LookupT(fn, X)>>), "ulp:" \o ToString(UlpOf(fn, off, 7)), <<"value", "f32", "tile_law">>, <<>>) @@ [tile |-> TileField({1})])
 
+\* float64 tensors at float64 precision: the float64 reference grid (small arguments where f(x) and x differ only beyond float32
+\* precision, ordinary and moderately large ones), compared in units of the last place of a float64
+\* (256 units: the kernels are Go's math functions; near the ends of a domain - Acos close to 1 is pi/2 - Asin - they lose several
+\* bits to cancellation, which is rounding error of the computation; a shortcut that is only valid in float32 is off by 10^4 units and more)
+Ulp64(fn) == 256
+Table64Cases(fn) ==
+   LET n == Len(Ref64(fn))
+       X == T("f64", <<n>>, [k \in 1..n |-> Ref64(fn)[k][1]]) Y == T("f64", <<n>>, [k \in 1..n |-> Ref64(fn)[k][2]])
+       m == n \div 2
+       X2 == T("f64", <<2, m>>, [k \in 1..(2 * m) |-> Ref64(fn)[n + 1 - k][1]]) Y2 == T("f64", <<2, m>>, [k \in 1..(2 * m) |-> Ref64(fn)[n + 1 - k][2]]) IN
+   /\ P(CaseRec("table64", fn, <<X>>, MustValue(<<Y>>), "ulp64:" \o ToString(Ulp64(fn)), <<"value", "f64", "float64_precision">>, <<>>))
+   /\ P(CaseRec("table64", fn, <<X2>>, MustValue(<<Y2>>), "ulp64:" \o ToString(Ulp64(fn)), <<"value", "f64", "float64_precision">>, <<>>))
+
 Init ==
    \/ ("long" \in Fams /\ st \in [fam : {"long"}, n : LongSizes, done : {FALSE}])
    \/ ("exact" \in Fams /\ st \in [fam : {"exact"}, shape : Shapes, done : {FALSE}])
@@ -109,7 +122,7 @@ Emit ==
         [] st.fam = "long" -> LongCases(st.n) /\ TileCases
         [] st.fam = "prelu" -> PReluCases(st.a, st.b) /\ (st.a = <<>> /\ st.b = <<>> => \A dt \in FloatTypes, off \in 0..13 : PReluSpecial(dt, off))
         [] st.fam = "table" -> TableCases(st.fn, st.shape)
-        [] st.fam = "tablefull" -> TableFull(st.fn)
+        [] st.fam = "tablefull" -> TableFull(st.fn) /\ Table64Cases(st.fn)
    /\ st' = [st EXCEPT !.done = TRUE]
 Next == Emit
 Spec == Init /\ [][Next]_st
